@@ -23,21 +23,35 @@ Min2(a, b) == IF a < b THEN a ELSE b
 \* the recorder's checksum of the stored bytes
 CheckSum(bs) == FoldLeft(LAMBDA acc, x : <<(acc[1] + x * (1 + (acc[2] % 251))) % 1000003, acc[2] + 1>>, <<0, 0>>, bs)[1]
 
+\* C04 is judged on the writer's OWN unlimited-capacity counters (scnt, recorded from a run with room for
+\* everything): the counter must not depend on the capacity, a call returns TRUE iff everything so far fits, the
+\* error is RANGE iff the whole does not fit, the stored bytes are the prefix before the first piece that did not
+\* fit (optionally plus that call's descriptor).  C05 compares sizes and bytes with Layer A's canonical encoding.
 Judge(ev) ==
   LET cs == Calls(ev)
+      n == Len(cs)
       e == A!Expect(cs, ev.cap)
       enc == A!EncCalls(cs, 1)
+      sc == ev.scnt
+      stot == IF n = 0 THEN 0 ELSE sc[n]
+      over == {i \in 1..n : sc[i] > ev.cap}
+      k == IF over = {} THEN n + 1 ELSE CHOOSE i \in over : \A j \in over : i <= j
+      G == IF k = 1 THEN 0 ELSE IF k = n + 1 THEN stot ELSE sc[k - 1]
+      plen == IF k <= n /\ cs[k].op \in {"str", "name", "bytes"} THEN Len(cs[k].v) ELSE 0
+      L == IF k <= n /\ plen > 0 /\ sc[k] - plen <= ev.cap THEN sc[k] - plen ELSE G
       ns == ev.nstored
       st == SubSeq(enc, 1, ns)
       wf == A!Parse(enc, "O", 10).ok
+      canonical == sc = e.sizes
   IN
-  IF ev.cnt # e.cnt THEN "C04: counter is not the exact encoded size"
-  ELSE IF [i \in 1..Len(ev.rets) |-> ev.rets[i] = 1] # e.rets THEN "C04: return values differ from 'fits so far'"
-  ELSE IF (ev.err = 1) # e.range \/ (ev.err # 0 /\ ev.err # 1) THEN "C04: error is RANGE iff the size exceeds the capacity"
-  ELSE IF ev.contig # 1 \/ ~(ns \in {e.G, e.L}) THEN "C04: stored bytes are not an allowed prefix"
+  IF ev.cnt # stot THEN "C04: the counter depends on the capacity"
+  ELSE IF [i \in 1..n |-> ev.rets[i] = 1] # [i \in 1..n |-> sc[i] <= ev.cap] THEN "C04: return values differ from 'fits so far'"
+  ELSE IF (ev.err = 1) # (stot > ev.cap) \/ (ev.err # 0 /\ ev.err # 1) THEN "C04: error is RANGE iff the size exceeds the capacity"
+  ELSE IF ev.contig # 1 \/ ~(ns \in {G, L}) THEN "C04: stored bytes are not an allowed prefix"
+  ELSE IF ~canonical THEN "C05: encoded sizes differ from the canonical encoding"
   ELSE IF ev.head # SubSeq(st, 1, Min2(64, ns)) \/ ev.tail # SubSeq(st, (IF ns > 16 THEN ns - 15 ELSE 1), ns) \/ ev.sum # CheckSum(st)
-       THEN (IF e.range THEN "C04: stored prefix differs from the encoding" ELSE "C05: output is not the canonical encoding")
-  ELSE IF ~e.range /\ (ev.wv = 1) # wf THEN "C05: binson_writer_verify disagrees with Layer A on the output"
+       THEN "C05: stored bytes differ from the canonical encoding"
+  ELSE IF stot <= ev.cap /\ (ev.wv = 1) # wf THEN "C05: binson_writer_verify disagrees with Layer A on the output"
   ELSE ""
 
 \* every line is an independent execution: validation continues after a disagreement
